@@ -66,6 +66,9 @@ type synthState struct {
 	wo          map[string]*woResult
 	accShapes   map[*ssa.Function]*accShape
 	accCalls    map[ssa.Value]*ssa.Call
+	pureExpr    map[*ssa.Function]ssa.Value
+	immField    map[*types.Var]bool
+	immWritten  map[*types.Var]bool
 }
 
 func (w *World) ss() *synthState {
@@ -1999,4 +2002,85 @@ func (w *World) reachableHelpers(fn *ssa.Function) []*ssa.Function {
 	}
 	visit(fn, 0)
 	return out
+}
+
+// pureExprResult: h is a pure expression function — one block, no stores, no calls other
+// than len/cap/min/max, one integer result — and the value it returns (nil otherwise).
+func (w *World) pureExprResult(h *ssa.Function) ssa.Value {
+	s := w.ss()
+	if s.pureExpr == nil {
+		s.pureExpr = map[*ssa.Function]ssa.Value{}
+	}
+	if r, ok := s.pureExpr[h]; ok {
+		return r
+	}
+	s.pureExpr[h] = nil
+	if h == nil || len(h.Blocks) != 1 || h.Signature.Results().Len() != 1 {
+		return nil
+	}
+	var ret *ssa.Return
+	for _, in := range h.Blocks[0].Instrs {
+		switch x := in.(type) {
+		case *ssa.Store, *ssa.MapUpdate, *ssa.Send, *ssa.Go, *ssa.Defer, *ssa.Panic, *ssa.RunDefers:
+			return nil
+		case *ssa.Call:
+			b, isB := x.Call.Value.(*ssa.Builtin)
+			if !isB {
+				return nil
+			}
+			switch b.Name() {
+			case "len", "cap", "min", "max":
+			default:
+				return nil
+			}
+		case *ssa.Return:
+			ret = x
+		}
+	}
+	if ret == nil || len(ret.Results) != 1 || !isIntType(ret.Results[0].Type()) {
+		return nil
+	}
+	s.pureExpr[h] = ret.Results[0]
+	return ret.Results[0]
+}
+
+// immutableFieldLoad: v is a load of a field that is only ever stored to while its object is
+// a fresh, not yet shared local (constructor literals): every read of it through one pointer
+// yields one value.
+func (w *World) immutableFieldLoad(v ssa.Value) bool {
+	u, ok := v.(*ssa.UnOp)
+	if !ok || u.Op != token.MUL {
+		return false
+	}
+	fa, ok := u.X.(*ssa.FieldAddr)
+	if !ok {
+		return false
+	}
+	return w.immutableField(fieldOf(fa))
+}
+
+func (w *World) immutableField(f *types.Var) bool {
+	s := w.ss()
+	if s.immField == nil {
+		s.immField = map[*types.Var]bool{}
+		written := map[*types.Var]bool{}
+		for _, fn := range w.ModFns {
+			w.eachInstr(fn, func(in ssa.Instruction) {
+				st, ok := in.(*ssa.Store)
+				if !ok {
+					return
+				}
+				fa, ok := st.Addr.(*ssa.FieldAddr)
+				if !ok {
+					return
+				}
+				if al, isAl := fa.X.(*ssa.Alloc); isAl && freshUnescapedAt(al, st) {
+					return
+				}
+				written[fieldOf(fa)] = true
+			})
+		}
+		s.immWritten = written
+	}
+	return !s.immWritten[f]
 }
